@@ -14,6 +14,7 @@ EXTENDS MechSet, Json
 CONSTANTS N,        \* universe 1..N of element ids of the exhaustive families
           OneLen,   \* max length of the written sequence in family "one"
           MaxLen,   \* max length of each written sequence in family "two"
+          NBig,     \* size of the element universe of family "big" (sets of up to NBig distinct elements)
           CompLen,  \* pairs with both lengths <= CompLen also carry the comprehension shapes
           BigN, BigM  \* family "big": BigN first sequences, BigM second sequences each
 
@@ -95,8 +96,8 @@ Lcg(x) == (75 * x + 74) % 65537
 RECURSIVE LcgN(_, _)
 LcgN(x, n) == IF n = 0 THEN x ELSE LcgN(Lcg(x), n - 1)
 BigSeq(seed) ==
-  LET len == 5 + ((LcgN(seed, 1) \div 11) % 2) IN
-  [i \in 1..len |-> ((LcgN(seed, 1 + i) \div 7) % 6) + 1]
+  LET len == 5 + ((LcgN(seed, 1) \div 11) % 5) IN
+  [i \in 1..len |-> ((LcgN(seed, 1 + i) \div 7) % NBig) + 1]
 
 Dummy == [stage |-> 0, fam |-> "one", a |-> <<>>, b |-> <<>>, k |-> 0]
 Partials ==
